@@ -371,25 +371,26 @@ Proof. destruct ts; cbn; congruence. Qed.
 
 (** In a quiescent state of a terminated pool every worker thread has ended. *)
 Lemma terminated_workers_end cfg s u :
-  1 <= nworkers cfg -> reachable cfg false s -> quiescent cfg true false s -> term (shr s) = true ->
+  1 <= nworkers cfg -> reachable cfg false s -> quiescent cfg true false s -> no_blocked_job s -> term (shr s) = true ->
   role_of (get (thr s) u) = RWorker -> False.
 Proof.
-  intros HW R Q T Hu.
+  intros HW R Q NB T Hu.
   pose proof (inv_reachable _ _ _ _ R) as HI. pose proof (jinv_reachable _ _ _ _ R) as HJ.
   pose proof (quiescent_free _ _ _ R Q) as Ho.
   assert (Hn : ~ In u (wsJ (shr s))).
   { intros Hin. destruct (j_sleep _ HJ (ex_intro _ u Hin)) as [X|(w & P)]; [congruence|].
     apply pendJ_hold in P. rewrite (free_not_hold _ _ HI Ho) in P. discriminate. }
-  destruct (worker_enabled cfg s u R Ho (role_worker_is_worker _ Hu) Hn) as (e & s' & E).
+  destruct (worker_enabled cfg s u R Ho (role_worker_is_worker _ Hu) Hn (NB u)) as (e & s' & E).
   unfold lstep in E. rewrite (Q u e) in E. discriminate.
 Qed.
 
-(** The destructor (and therefore the whole main program after the clients are joined) is never stuck:
-    no quiescent state has the main thread blocked in threads_[k].join(). *)
+(** The destructor (and therefore the whole main program after the clients are joined) is never stuck once the
+    running jobs finish: no quiescent state in which no job body is blocked in a rendezvous has the main thread
+    blocked in threads_[k].join(). *)
 Theorem destructor_not_stuck cfg s u :
-  1 <= nworkers cfg -> reachable cfg false s -> quiescent cfg true false s -> in_dtor_join (get (thr s) u) = false.
+  1 <= nworkers cfg -> reachable cfg false s -> quiescent cfg true false s -> no_blocked_job s -> in_dtor_join (get (thr s) u) = false.
 Proof.
-  intros HW R Q. destruct (in_dtor_join (get (thr s) u)) eqn:D; [exfalso|reflexivity].
+  intros HW R Q NB. destruct (in_dtor_join (get (thr s) u)) eqn:D; [exfalso|reflexivity].
   pose proof (rinv_reachable _ _ _ _ HW R) as HR.
   destruct (get (thr s) u) as [| |?| | | | | | |p|] eqn:Eu; try discriminate D. destruct p as [| | | | | | |k|]; try discriminate D.
   assert (u = 0) by (apply (r_mainu _ _ HR); now rewrite Eu). subst u.
